@@ -118,7 +118,7 @@ def cmd_detect(i, props, tier="quick"):
             print(i, "patch does not apply:", ap.stdout[-300:])
             return
         for p in props:
-            env = dict(os.environ, VERIF_REPO=d, VERIF_BUILD="build/seeded-" + i, VERIF_REPLAYS=os.path.join(VERIF, "build", "seeded-" + i, "replays"),
+            env = dict(os.environ, VERIF_MINIMISE_BUDGET=os.environ.get("VERIF_MINIMISE_BUDGET", "40"), VERIF_REPO=d, VERIF_BUILD="build/seeded-" + i, VERIF_REPLAYS=os.path.join(VERIF, "build", "seeded-" + i, "replays"),
                        VERIF_EVIDENCE=os.path.join(VERIF, "build", "seeded-" + i, "evidence"))
             t0 = time.time()
             r = subprocess.run(["python3", "tools/check.py", p, tier], cwd=VERIF, env=env, stdout=subprocess.PIPE, stderr=subprocess.PIPE, text=True)
